@@ -285,6 +285,24 @@ func h1Output(env *Env, c *H1Cfg, hr *h1Run, stats simrt.Stats, timedOut, allEnd
 				env.Violate("C19", "message-lost-or-duplicated", "output/text", "%q appears %d times in the printed output, expected %d", it.sub, n, it.want)
 			}
 		}
+		// a printed chunk is one whole line group handed to the terminal in one piece: it ends in a newline, its bytes
+		// do not change while the terminal is still writing it, and no message of the run is printed twice
+		seen := map[string]bool{}
+		for _, p := range rec.Out {
+			if p.Was != "" {
+				env.Violate("C19", "output-changed-while-written", "output/text", "the bytes handed to the terminal changed while they were being written: %q became %q", truncate(p.Was, 160), truncate(p.Text, 160))
+				break
+			}
+			if !strings.HasSuffix(p.Text, "\n") {
+				env.Violate("C19", "output-torn", "output/text", "printed chunk does not end in a newline: %q", truncate(p.Text, 200))
+				break
+			}
+			if seen[p.Text] && strings.TrimSpace(p.Text) != "" {
+				env.Violate("C19", "message-lost-or-duplicated", "output/text", "the same chunk was printed twice: %q", truncate(p.Text, 200))
+				break
+			}
+			seen[p.Text] = true
+		}
 		env.Hit("h1.printed_messages_checked")
 	}
 	// progress lines
